@@ -8,7 +8,7 @@ reported as a failure (CRASH rc=124) with the case (matrix + partition) as repla
 The MPI harness runs in binary64 on small dyadic inputs, so every operation is exact and the
 printed rationals are compared byte for byte with
   * the rank-by-rank Coq model of Dist.v (split, comm pattern, spmv, residual, inner product,
-    scale, sort_rows, transpose in storage order, remote rows, Gershgorin) and
+    scale, sort_rows, transpose and product in storage order, remote rows, Gershgorin) and
   * the SERIAL kernels of Kernels.v/MatOps.v applied to the global matrix and cut along the
     partition (transpose, product, (A^T)x, (AB)x, copy to another backend).
 Oracles: Gershgorin estimate = serial value on every rank ("gersh_spec"); power-method estimate
@@ -30,8 +30,8 @@ ASSUMPTIONS = [
     "every receive names source, tag and its own buffer slice) -- covered by the mpirun runs under timeout only",
     "the MPI harness runs the templates at double on small dyadic inputs (all operations exact in binary64) and prints exact "
     "rationals; the templates at double execute the same algorithm as at an exact field",
-    "product / copy between backends: compared with the SERIAL Coq kernels on the assembled matrix (correspondence), no "
-    "rank-by-rank Coq model; remote-row exchange: rank-by-rank model compared, no theorem",
+    "copy between backends: compared with the SERIAL Coq kernels on the assembled matrix (correspondence only); remote-row "
+    "exchange: modelled by reading the owner's row (compared with the implementation, no theorem about the message exchange)",
     "power-method spectral radius: only rank-consistency (bitwise identical on all ranks) is checked",
 ]
 TRUSTED_BASE = [
